@@ -1188,8 +1188,9 @@ def trace_round(arg):
         ups = ["U%d" % j for j in range(1, nup + 1)]
         cls0 = rng.choice(CLASSES)
         classes = [cls0 if j < 2 else rng.choice(CLASSES) for j in range(nup)]
-        if rnd % 8 == 1:           # packed size just above the extractor's first read (cf. SOLO "mirror-edge"): the mirror must drain
-            classes = [("edge512", 5)] * nup
+        edge = rnd % 8 == 1
+        if edge:                   # packed size just above the extractor's first read (cf. SOLO "mirror-edge"): the mirror must
+            classes = [("edge512", 5)] * nup      # drain its source; nobody but the mirrors publishes in B
         w = World(work, seed, 200000 + rnd, ups, classes=classes, filemode=0o640)
         w.references(fsint.Interposer())
         os.makedirs(os.path.join(work, "ev"))
@@ -1199,7 +1200,7 @@ def trace_round(arg):
         for j, u in enumerate(ups):
             r = rng.random()
             kind = "pkg" if j < 2 or r < 0.6 else "meta"
-            arch = "A" if j < 2 or rng.random() < 0.6 else "B"
+            arch = "A" if j < 2 or rng.random() < 0.6 or edge else "B"
             plan = None
             if j >= 1 and not forced and rng.random() < 0.35:
                 mode = rng.choice(["kill", "fault"])
